@@ -218,7 +218,8 @@ fn gen(seed: u64, size: &str, path: &str) {
     let mut rng = Rng::new(seed);
     let thorough = size == "thorough";
     let mut execs = Vec::new();
-    // fork: long schedules whose lead keeps changing sign and touches exactly +-cap
+    // fork: long schedules whose lead keeps changing sign and touches exactly +-cap; every fourth one leaves the
+    // environment assumption half way (a branch overruns the ring): C12 claims nothing from there on, C07 still does
     for h in 0..(if thorough { 60 } else { 12 }) {
         let cap = if h % 3 == 0 { rng.range(1, 3) } else { rng.range(1, 16) } as i64;
         let start = rng.below(cap as u64);
@@ -234,8 +235,9 @@ fn gen(seed: u64, size: &str, path: &str) {
                 continue;
             }
             let mut a = (rng.below(100) as i64) < bias;
-            if a && pa + 1 - pb > cap { a = false; }
-            if !a && pb + 1 - pa > cap { a = true; }
+            let wild = h % 4 == 3 && ex.len() > n / 2;
+            if !wild && a && pa + 1 - pb > cap { a = false; }
+            if !wild && !a && pb + 1 - pa > cap { a = true; }
             if a { pa += 1 } else { pb += 1 }
             ex.push(json!({"ev":"next","a":{"branch": if a {"A"} else {"B"}}}));
         }
